@@ -702,6 +702,7 @@ fn tre_init(r: &mut Rng) -> (Deps, Vec<Vec<tre::SwapRoute>>) {
     let mut routes = vec![vec![rt(1, "utia", "uosmo")], vec![rt(2, "uosmo", "uusdc"), rt(3, "uusdc", "utia")]];
     if r.next() % 2 == 0 { routes.push(vec![rt(1, "utia", "uosmo"), rt(4, "uosmo", "uatom")]); }
     if r.next() % 5 == 0 { routes.clear(); }
+    if r.next() % 4 == 0 { routes.push(vec![]); }
     tre::instantiate(deps.as_mut(), mock_env(), mock_info(ADMIN, &[]), tre::InstantiateMsg { admin: None, trader: Some(USER.into()), allowed_swap_routes: routes.clone() }).expect("treasury instantiate");
     (deps, routes)
 }
